@@ -23,6 +23,7 @@ pub fn clone_world(w: &World) -> World {
         acct_len: w.acct_len.clone(),
         array_rent: w.array_rent.clone(),
         pos_rent: w.pos_rent.clone(),
+        c12_mismatch: None,
     }
 }
 
@@ -427,6 +428,9 @@ fn c13_sizes(w: &World, ctx: &mut Ctx) {
 }
 
 pub fn after_op(w: &mut World, t: &[&str], res: &Result<String, String>, pre: &Snapshot, ctx: &mut Ctx) {
+    if let Some(m) = w.c12_mismatch.take() {
+        ctx.viol(m);
+    }
     if res.is_err() {
         return;
     }
